@@ -12,6 +12,7 @@ import io
 import itertools
 import random
 import threading
+import time
 import zlib
 from xml.sax.saxutils import escape
 
@@ -396,6 +397,17 @@ class FakeS3:
     def _raise_fault(self, f, key, phase, rec, request, **extra):
         kind = f['kind']
         self.director.note_raised(f, key, phase, **extra)
+        if kind == 'stall':
+            # a request that simply takes long (seconds of real time) and then goes on normally: nothing fails
+            d = self.director
+            with d._lock:
+                d.sleeping += 1
+            try:
+                time.sleep(f.get('secs', 2.5))
+            finally:
+                with d._lock:
+                    d.sleeping -= 1
+            return
         if kind == 'client4xx':
             raise S3Error(403, 'AccessDenied', f['tag'])
         if kind.startswith('code:'):
